@@ -360,9 +360,9 @@ func c04Regroup(c *Ctx) {
 	bad, okCount := 0, 0
 	var firstBad string
 	for L := 0; L <= 90; L++ {
-		in := bitdom.New(c.P.SSA, 64)
+		in := bitdom.New(c.P.SSA, c.wordBits())
 		// DecodedLen folded by the interpreter
-		ex, err := in.Call(dl, []bitdom.Val{bitdom.ConstBV(uint64(L), 64, true)})
+		ex, err := in.Call(dl, []bitdom.Val{bitdom.ConstBV(uint64(L), c.wordBits(), true)})
 		if err != nil || ex.Panic {
 			r.Undec("C04.regroup-bits.decoded-len", c.P.Pos(dl.Pos()), "DecodedLen(%d) not foldable: %v", L, err)
 			return
